@@ -15,6 +15,8 @@ from lib import vf
 ITEM = {
     "fn": ("fn f<D>(deps: &D, a: i32) -> i32 { a }",
            "pub struct MockT; pub struct Mk;"),
+    "fnconc": ("fn f(deps: &crate::Conc, a: i32) -> i32 { a }",
+               "pub struct MockT; pub struct Mk;"),
     "mod": ("pub mod m {\n    #[allow(unused_imports)] pub use super::fb::*;\n    pub fn f<D>(deps: &D, a: i32) -> i32 { a }\n"
             "    pub fn g<D>(deps: &D) -> u8 { 7 }\n}",
             "pub struct MockT; pub mod Mk { pub struct f; }"),
@@ -24,7 +26,7 @@ ITEM = {
 
 
 def probes(i):
-    if i["target"] == "fn":
+    if i["target"] in ("fn", "fnconc"):
         return "Mk", "MockT"
     if i["target"] == "mod":
         return "m::Mk::f", "m::MockT"
@@ -36,6 +38,8 @@ def render(c):
     item, fb = ITEM[i["target"]]
     pu, pm = probes(i)
     uprobe = f'!::core::any::type_name::<{pu}>().contains("::fb::")' if pu else "::vt::has_impl!(::unimock::Unimock: T)"
+    if i["target"] == "fnconc":     # no blanket impl exists for concrete dependencies: `Unimock: T` is a mock implementation too
+        uprobe = f"({uprobe} || ::vt::has_impl!(::unimock::Unimock: T))"
     return f"""#[allow(non_camel_case_types, non_snake_case)]
 pub mod fb {{ {fb} }}
 #[allow(unused_imports)] use fb::*;
@@ -47,10 +51,30 @@ pub fn probe() -> (bool, bool) {{
 """
 
 
+def find_trait(items):
+    for it in items:
+        if it["k"] == "trait" and it["name"] == "T":
+            return it
+        if it["k"] == "mod":
+            for sub in it["items"]:
+                if sub["k"] == "trait" and sub["name"] == "T":
+                    return sub
+    return None
+
+
+def mark(o, attrs):
+    for a in attrs:
+        if a["kind"] == "unimock":
+            o["unimock"], o["ugated"] = True, a["gated"]
+        if a["kind"] == "mockall":
+            o["mockall"], o["mgated"] = True, a["gated"]
+
+
 def main():
     chk = vf.Check("C10")
-    cases, res = vf.mc_cases(chk, "MC_C10", actions=["ParseOneOpt", "EndOfOpts", "ApplyVariantFallbacks", "GenTraitDef"], workers=8)
+    cases, res = vf.mc_cases(chk, "MC_C10", actions=["ParseOneOpt", "EndOfOpts", "ApplyVariantFallbacks", "GenTraitDef", "NestedEntraitOnTrait"], workers=8)
     obs = {}
+    allrecs = {}
     built = {}
     for feature in (False, True):
         name = "c10on" if feature else "c10off"
@@ -59,6 +83,7 @@ def main():
         for test in (False, True):
             crate = vf.Crate(os.path.join(chk.work, name + ("-test" if test else "-bin")), name,
                              features=(["unimock"] if feature else []), deps=["vt", "unimock", "mockall"])
+            crate.prelude = "pub struct Conc;\n"
             for c in mine:
                 crate.add_case(c["case"], render(c))
 
@@ -83,7 +108,8 @@ def main():
                     recs = by_case.get(c["case"])
                     if not recs:
                         raise vf.ToolError(f"C10: no expansion record for {c['text']}")
-                    obs[c["case"]] = sorted(recs, key=lambda r: (r["pid"], r["seq"]))[0]
+                    allrecs[c["case"]] = sorted(recs, key=lambda r: (r["pid"], r["seq"]))
+                    obs[c["case"]] = allrecs[c["case"]][0]
         for c in mine:
             cid = c["case"]
             ok = all(cid not in results[t][0] and cid in results[t][1] for t in (False, True))
@@ -96,21 +122,17 @@ def main():
         o = {"expanded": False, "unimock": False, "mockall": False, "ugated": False, "mgated": False, "built": False,
              "nt_unimock": False, "t_unimock": False, "nt_mockall": False, "t_mockall": False, "errors": []}
         if rec["panic"] is None and rec["parse_ok"] and not rec["errors"]:
-            trait = None
-            for it in rec["items"]:
-                if it["k"] == "trait" and it["name"] == "T":
-                    trait = it
-                if it["k"] == "mod":
-                    for sub in it["items"]:
-                        if sub["k"] == "trait" and sub["name"] == "T":
-                            trait = sub
+            trait = find_trait(rec["items"])
             if trait is not None:
                 o["expanded"] = True
-                for a in trait["attrs"]:
-                    if a["kind"] == "unimock":
-                        o["unimock"], o["ugated"] = True, a["gated"]
-                    if a["kind"] == "mockall":
-                        o["mockall"], o["mgated"] = True, a["gated"]
+                mark(o, trait["attrs"])
+            # a nested entrait invocation on the generated trait (concrete deps) may add derivations of its own:
+            # what its output trait carries beyond what its input trait carried
+            for nested in allrecs[cid][1:]:
+                tin, tout = find_trait(nested["in_items"]), find_trait(nested["items"])
+                if tin is not None and tout is not None:
+                    had = {a["text"] for a in tin["attrs"]}
+                    mark(o, [a for a in tout["attrs"] if a["text"] not in had])
         o["errors"] = rec["errors"]
         ok, results = built[cid]
         if ok:
